@@ -109,6 +109,7 @@ def work(unit):
     counter = EntryCounter(tm)
     refs = space.all_refs(prog)
     orders = {n: len(refs[n][0]) for n in ops}
+    orders_all = {**orders, out_name: len(prog[1])}
     slots = [(n, d) for n in ops for d in range(orders[n])]
     calls = 0
 
@@ -203,7 +204,8 @@ def work(unit):
            for bad, label in ((None, "None"), (3.0, "float"), ("ds", "str"), (Tensor, "the Tensor class"),
                               (HasFormat(), "foreign object with a format attribute"), ([1.0], "list"),
                               (base[n].cffi_tensor, "cffi struct"))]
-        + [(f"order:{n}", {**base, n: dense_tensor([2] * (orders[n] + 1), all_formats(orders[n] + 1)[0], 1.0)[0]}) for n in ops]
+        + [(f"order:{n} has order {o2}", {**base, n: dense_tensor([2] * o2, all_formats(o2)[0], 1.0)[0]})
+           for n in ops for o2 in (orders[n] + 1, orders[n] - 1) if o2 >= 0]
     ):
         calls += 1
         try:
@@ -216,6 +218,23 @@ def work(unit):
             findings.append(_f("wrong-exception", f"evaluate {what}: raised {type(e).__name__}: {e}",
                                {**case0, "call": "evaluate " + what}, exception=type(e).__name__, entry="evaluate",
                                deviation=what.split(":")[0]))
+    # ---- a method declared with a format of the wrong order for one tensor must be refused when it is built
+    for n in names:
+        for o2 in (orders_all[n] + 1, orders_all[n] - 1):
+            if o2 < 0:
+                continue
+            calls += 1
+            what = f"declared-order:{n} declared with an order-{o2} format"
+            try:
+                tensor_method(text, {**{m: fmts[m].deparse() for m in names}, n: all_formats(o2)[0].deparse()})
+                findings.append(_f("inconsistent-call-returned", f"tensor_method {what}: a method was returned",
+                                   {**case0, "call": "tensor_method " + what}, deviation="declared-order", entry="tensor_method"))
+            except OK:
+                stats["refused before the kernel"] += 1
+            except BaseException as e:  # noqa: BLE001
+                findings.append(_f("wrong-exception", f"tensor_method {what}: raised {type(e).__name__}: {e}",
+                                   {**case0, "call": "tensor_method " + what}, exception=type(e).__name__,
+                                   entry="tensor_method", deviation="declared-order"))
     for wrong in ("d" * (len(prog[1]) + 1),):
         calls += 1
         try:
